@@ -126,8 +126,9 @@ def r7_3(cx):
     digits = None
     if ok:
         arr, rng = src.args[0].strip(), src.args[1].strip()
-        ok = arr.kind == 'agg' and arr.info.get('ak') == 'array' and len(arr.args) == 3 and rng.kind == 'agg' and rng.args[0].is_const_int(0) \
-            and is_call(rng.args[1], 'Backref::len')
+        ok = arr.kind == 'agg' and arr.info.get('ak') == 'array' and len(arr.args) == 3 and rng.kind == 'agg' and \
+            ((len(rng.args) == 2 and show(rng).startswith('Range{') and rng.args[0].is_const_int(0) and is_call(rng.args[1], 'Backref::len')) or
+             (len(rng.args) == 1 and show(rng).startswith('RangeTo{') and is_call(rng.args[0], 'Backref::len')))
         if ok:
             d0, d1 = arr.args[0].strip(), arr.args[1].strip()
             ok = d0.kind == 'binop' and d0.op == 'Rem' and d0.a.strip().kind == 'param' and const_is(prog, d0.b, 'hcobs::RADIX') and \
